@@ -31,6 +31,10 @@ type Sched struct {
 	self    int
 	Enabled bool
 
+	// AutoRegister: goroutines the scheduler did not start are registered (as libN) when
+	// they first reach a gate; otherwise they pass through gates unhindered.
+	AutoRegister bool
+
 	// Trace of decisions: "name@point".
 	Steps []string
 	// OnStep is called by the scheduler goroutine before releasing a choice.
@@ -86,9 +90,25 @@ func (s *Sched) Gate(point string) {
 	if id == s.self {
 		return // environment actions run in the scheduler goroutine itself
 	}
+	if !s.AutoRegister && !s.knows(id) {
+		return // not one of ours (e.g. a goroutine left over from an earlier run)
+	}
 	g := &gate{gid: id, point: point, resume: make(chan struct{})}
 	s.arrive <- g
 	<-g.resume
+}
+
+func (s *Sched) knows(id int) bool {
+	s.mu.Lock()
+	defer s.mu.Unlock()
+	_, ok := s.names[id]
+	return ok
+}
+
+// Mine reports whether the calling goroutine belongs to this scheduler's run.
+func (s *Sched) Mine() bool {
+	id := goid()
+	return id == s.self || s.knows(id)
 }
 
 // Go starts a controlled goroutine; it parks at gate "start" before running f.
@@ -96,17 +116,17 @@ func (s *Sched) Go(name string, f func()) {
 	ch := make(chan int)
 	go func() {
 		id := goid()
+		s.mu.Lock()
+		s.names[id] = name
+		s.byName[name] = id
+		s.live[id] = true
+		s.mu.Unlock()
 		ch <- id
 		s.Gate("start")
 		defer func() { s.done <- id }()
 		f()
 	}()
-	id := <-ch
-	s.mu.Lock()
-	s.names[id] = name
-	s.byName[name] = id
-	s.live[id] = true
-	s.mu.Unlock()
+	<-ch
 }
 
 // Env registers an environment action.
@@ -114,23 +134,32 @@ func (s *Sched) Env(a *EnvAction) { s.envs = append(s.envs, a) }
 
 var stRe = regexp.MustCompile(`(?m)^goroutine (\d+) \[([^\],]+)`)
 
+var stackBuf = make([]byte, 1<<20)
+
 func statuses() map[int]string {
-	buf := make([]byte, 1<<20)
-	n := runtime.Stack(buf, true)
+	n := runtime.Stack(stackBuf, true)
 	m := map[int]string{}
-	for _, x := range stRe.FindAllStringSubmatch(string(buf[:n]), -1) {
-		id, _ := strconv.Atoi(x[1])
-		m[id] = x[2]
+	for _, x := range stRe.FindAllSubmatch(stackBuf[:n], -1) {
+		id, _ := strconv.Atoi(string(x[1]))
+		m[id] = string(x[2])
 	}
 	return m
 }
 
+// blockedStatus: only wait states that mean "parked on a Go synchronisation primitive
+// until somebody else acts" count as blocked. Everything else - running, runnable,
+// syscall, and transient runtime states such as "GC assist wait" or "preempted" - means
+// the goroutine may still move by itself, so the system is not quiescent.
 func blockedStatus(st string) bool {
 	switch st {
-	case "running", "runnable", "syscall":
-		return false
+	case "chan receive", "chan send", "select", "select (no cases)", "chan receive (nil chan)",
+		"chan send (nil chan)", "sync.Mutex.Lock", "sync.RWMutex.RLock", "sync.RWMutex.Lock",
+		"semacquire", "sync.Cond.Wait", "sync.WaitGroup.Wait", "IO wait", "finalizer wait",
+		"GC worker (idle)", "GC sweep wait", "GC scavenge wait", "force gc (idle)", "debug call",
+		"trace reader (blocked)", "cleanup wait":
+		return true
 	}
-	return true
+	return false
 }
 
 func (s *Sched) drain() bool {
@@ -186,7 +215,7 @@ func (s *Sched) settle() {
 		cur := strings.Join(sig, ",")
 		if quiet && cur == prev && len(s.arrive) == 0 && len(s.done) == 0 {
 			stable++
-			if stable >= 2 {
+			if stable >= 3 {
 				return
 			}
 		} else {
@@ -285,14 +314,43 @@ func (s *Sched) Stop() {
 		delete(s.parked, id)
 	}
 	s.mu.Unlock()
-	// late arrivals
-	for i := 0; i < 50; i++ {
-		time.Sleep(100 * time.Microsecond)
+	// let the released goroutines run to their end (those blocked for good are left behind)
+	deadline := time.Now().Add(200 * time.Millisecond)
+	for time.Now().Before(deadline) {
 		select {
 		case g := <-s.arrive:
 			close(g.resume)
+			continue
+		case id := <-s.done:
+			s.mu.Lock()
+			delete(s.live, id)
+			s.mu.Unlock()
+			continue
 		default:
 		}
+		s.mu.Lock()
+		n := len(s.live)
+		s.mu.Unlock()
+		if n == 0 {
+			return
+		}
+		st := statuses()
+		busy := false
+		s.mu.Lock()
+		for id := range s.live {
+			if x, ok := st[id]; ok && !blockedStatus(x) {
+				busy = true
+			}
+		}
+		s.mu.Unlock()
+		if !busy {
+			// everything left is blocked on a primitive: nothing more will happen
+			time.Sleep(200 * time.Microsecond)
+			if len(s.arrive) == 0 && len(s.done) == 0 {
+				return
+			}
+		}
+		time.Sleep(50 * time.Microsecond)
 	}
 }
 
@@ -350,4 +408,52 @@ func (s *Sched) Who() string {
 	s.mu.Lock()
 	defer s.mu.Unlock()
 	return s.names[id]
+}
+
+// Drive runs one schedule: at every decision point the options are ordered with the
+// goroutine that ran last first (so choice 0 never pre-empts) and choices[step] (0 beyond
+// the prefix) is taken. When nothing is enabled but goroutines are still alive, stuck() may
+// unblock the environment (return true to continue); otherwise the run ends with note
+// "stuck". A run of more than maxSteps decisions ends with note "runaway".
+func (s *Sched) Drive(choices []int, maxSteps int, stuck func() bool) (res RunResult, note string) {
+	last := ""
+	for step := 0; ; step++ {
+		opts := s.Options()
+		if len(opts) == 0 {
+			if s.Live() > 0 {
+				if stuck != nil && stuck() {
+					step--
+					continue
+				}
+				note = "stuck"
+			}
+			return res, note
+		}
+		for i, o := range opts {
+			if o.Name == last && o.Name != "env" {
+				opts[0], opts[i] = opts[i], opts[0]
+				break
+			}
+		}
+		pre := make([]bool, len(opts))
+		if opts[0].Name == last && last != "env" {
+			for i := 1; i < len(opts); i++ {
+				pre[i] = true
+			}
+		}
+		res.NOpts = append(res.NOpts, len(opts))
+		res.Preempt = append(res.Preempt, pre)
+		ch := 0
+		if step < len(choices) {
+			ch = choices[step]
+		}
+		if ch >= len(opts) {
+			ch = 0
+		}
+		last = opts[ch].Name
+		s.Take(opts[ch])
+		if step > maxSteps {
+			return res, "runaway"
+		}
+	}
 }
